@@ -132,7 +132,7 @@ ASSUMPTIONS = ["the callable fails on its first `fails` invocations (Boom) so th
 BOUNDS_TEXT = {"quick": "7 executor entries + 11 f_* + 10 two-layer stacks over a manual delegate + 4 stacks over thread_pool(1); 1-2 cancellers x 1-2 calls; P<=1",
                "thorough": "2 cancellers x 2 calls; P<=2"}
 MUST_REACH = {"*": ["cancel-true", "cancel-false", "retry-cancel-checked", "cancel-while-running", "propagation-checked"]}
-BUDGET = {"quick": 120.0, "thorough": 1200.0}
+BUDGET = {"quick": 120.0, "thorough": 600.0}
 
 
 def plan(tier, seed):
